@@ -38,7 +38,7 @@ Proof.
       cbn [andb deliveries_from]. rewrite orb_false_r.
       destruct (Z.eq_dec avail 0) as [H0|H0].
       * subst avail. rewrite (rfb_nothing current f 0) by lia. reflexivity.
-      * rewrite (rfb_partial TyData b f avail Hgf) by lia.
+      * rewrite (rfb_cut_inside TyData b f avail Hgf) by lia.
         assert (E2 : (avail =? 0) = false) by (apply Z.eqb_neq; lia). rewrite E2. reflexivity.
 Qed.
 
@@ -73,7 +73,7 @@ Proof.
       rewrite orb_false_r. split; [|reflexivity].
       destruct (Z.eq_dec k 0) as [H0|H0].
       - subst k. rewrite (rfb_nothing current f 0) by lia. reflexivity.
-      - rewrite (rfb_partial ty b f k Hgf) by lia.
+      - rewrite (rfb_cut_inside ty b f k Hgf) by lia.
         assert (E2 : (k =? 0) = false) by (apply Z.eqb_neq; lia). rewrite E2. reflexivity. }
     apply orb_prop in Hf as [Hh|Hd].
     + destruct (good_header_frame_inv f Hh) as (b & Hgf & He & Hp & Ho & Hih).
